@@ -23,6 +23,15 @@ theorem setIdx_ne (idx : Idx D) {a d : Fin D} (k : Int) (h : d ≠ a) : setIdx i
 @[simp] theorem setIdx_self (idx : Idx D) (a : Fin D) : setIdx idx a (idx a) = idx := by
   funext j; by_cases h : j = a <;> simp [setIdx, h]
 
+theorem setIdx_comm (idx : Idx D) {a b : Fin D} (hab : a ≠ b) (k l : Int) :
+    setIdx (setIdx idx a k) b l = setIdx (setIdx idx b l) a k := by
+  funext j
+  by_cases hja : j = a
+  · subst hja; simp [setIdx, hab]
+  · by_cases hjb : j = b
+    · subst hjb; simp [setIdx, hja]
+    · simp [setIdx, hja, hjb]
+
 theorem affField_setIdx (s h : Fin D → K) (c : K) (idx : Idx D) (a : Fin D) (k : Int) :
     affField s h c (setIdx idx a k) = affField s h c idx + s a * h a * ((k : K) - (idx a : K)) := by
   unfold affField
@@ -61,8 +70,57 @@ def PerpInterior (sz : Fin D → Nat) (a : Fin D) (idx : Idx D) (l : List (Fin D
 
 theorem conv3_interior (n : Nat) (w0 w1 w2 : K) (f : Int → K) (k : Int) (h0 : 1 ≤ k) (h1 : k + 1 < n) :
     conv3 n w0 w1 w2 f k = w0 * f (k - 1) + w1 * f k + w2 * f (k + 1) := by
-  simp only [conv3, zeroPad]
-  rw [if_pos (by constructor <;> omega), if_pos (by constructor <;> omega), if_pos (by constructor <;> omega)]
+  simp only [conv3]
+  rw [if_neg (by omega), if_neg (by omega)]
+
+/-- the model's `conv3` is replicate padding by one sample on both sides followed by the
+    un-padded 3-tap cross-correlation, on the output range `0 ≤ k < n`. -/
+theorem conv3_eq_padReplicate (n : Nat) (w0 w1 w2 : K) (f : Int → K) (k : Int) (h0 : 0 ≤ k) (h1 : k < n) :
+    conv3 n w0 w1 w2 f k
+      = w0 * padReplicate n 1 f k + w1 * padReplicate n 1 f (k + 1) + w2 * padReplicate n 1 f (k + 2) := by
+  simp only [conv3, padReplicate, clampIdx]
+  have e1 : k + 1 - ((1 : Nat) : Int) = k := by push_cast; ring
+  have e2 : k + 2 - ((1 : Nat) : Int) = k + 1 := by push_cast; ring
+  have e0 : k - ((1 : Nat) : Int) = k - 1 := by push_cast; ring
+  rw [e0, e1, e2]
+  have a1 : ¬ k < 0 := by omega
+  have a2 : ¬ (n : Int) ≤ k := by omega
+  have a3 : ¬ k + 1 < 0 := by omega
+  rw [if_neg a1, if_neg a2, if_neg a3]
+  by_cases c1 : k - 1 < 0
+  · have c1' : ¬ (n : Int) ≤ k - 1 := by omega
+    by_cases c2 : (n : Int) ≤ k + 1 <;> simp [c1, c2]
+  · have c1' : ¬ (n : Int) ≤ k - 1 := by omega
+    by_cases c2 : (n : Int) ≤ k + 1 <;> simp [c1, c1', c2]
+
+theorem conv3_add_const (n : Nat) (w0 w1 w2 : K) (g : Int → K) (c : K) (k : Int) :
+    conv3 n w0 w1 w2 (fun t => g t + c) k = conv3 n w0 w1 w2 g k + (w0 + w1 + w2) * c := by
+  simp only [conv3]; ring
+
+/-- replicate-padded normalised averaging along the other axes keeps a field affine along `a`
+    with the same slope — at every point, boundary layers included (the padded samples are copies
+    of in-range samples, so only an `idx_a`-independent offset is added). -/
+theorem avgPerp_affineAlong (sz : Fin D → Nat) (w : K × K × K) (hsum : w.1 + w.2.1 + w.2.2 = 1) (a : Fin D) (m : K) :
+    ∀ (l : List (Fin D)) (R : Arr D K), AffineAlong R a m → AffineAlong (avgPerp sz w a l R) a m := by
+  intro l
+  induction l with
+  | nil => intro R hR; exact hR
+  | cons d l ih =>
+    intro R hR
+    show AffineAlong (avgPerp sz w a l (if d = a then R else alongAxis d (conv3 (sz d) w.1 w.2.1 w.2.2) R)) a m
+    apply ih
+    by_cases hda : d = a
+    · rw [if_pos hda]; exact hR
+    · rw [if_neg hda]
+      intro idx k
+      have had : a ≠ d := fun e => hda e.symm
+      simp only [alongAxis]
+      rw [setIdx_ne idx k hda]
+      have : (fun t => R (setIdx (setIdx idx a k) d t))
+          = fun t => R (setIdx idx d t) + m * ((k : K) - (idx a : K)) := by
+        funext t
+        rw [setIdx_comm idx had k t, hR (setIdx idx d t) k, setIdx_ne idx t had]
+      rw [this, conv3_add_const, hsum, one_mul]
 
 /-- symmetric normalised 3-tap averaging reproduces a field that is affine along every axis,
     at the points whose perpendicular coordinates are interior. -/
@@ -139,6 +197,18 @@ theorem sdStep_avg_affine (mode : SDMode) (w : K × K × K) (hm : (mode.avgKerne
   have : (fun k => avgPerp sz w a (List.finRange D) F (setIdx idx a k)) = fun k => F (setIdx idx a k) := funext hline
   rw [this]
   exact fd_fcb_affine ((hF a).line idx) hh (by norm_num) (by simpa using hn) h0 h1
+
+/-- prewitt / sobel with the replicate-padded averaging (repair of F-17d): one derivative step on a
+    field that is affine along the differentiated axis is exact at EVERY index `0 ≤ idx a < sz a`,
+    whatever the other coordinates — no margin. -/
+theorem sdStep_avg_affine_everywhere (mode : SDMode) (w : K × K × K)
+    (hm : (mode.avgKernel : Option (K × K × K)) = some w) (hfd : mode.fdMode = .fcb)
+    (hsum : w.1 + w.2.1 + w.2.2 = 1) (sz : Fin D → Nat) (sp : Fin D → K) (a : Fin D) (F : Arr D K) (m : K)
+    (hF : AffineAlong F a m) (hh : sp a ≠ 0) (hn : 2 ≤ sz a) (idx : Idx D) (h0 : 0 ≤ idx a) (h1 : idx a < sz a) :
+    sdStep mode sz sp a F idx = m / sp a := by
+  simp only [sdStep, hm, alongAxis, hfd]
+  have hR := avgPerp_affineAlong sz w hsum a m (List.finRange D) F hF
+  exact fd_fcb_affine (hR.line idx) hh (by norm_num) (by simpa using hn) h0 h1
 
 end FD
 end Deepali
